@@ -82,6 +82,20 @@ CLAIMED = {
         note="Trusted: linearity of forward/adjoint on parameter vectors (itself probed), numpy. Classes under recorded "
              "known findings (non-orthonormal expansion geometries; Deconvolution2D even PSF / reflective BC) are excluded and counted.",
         design="3/C07"),
+    "C08": dict(
+        technique="Hypothesis property tests with a recording target and scripted momentum/slice draws: every evaluated point is compared with a reference leapfrog orbit and a reference Algorithm-3 tree (doubling replay, stopping rule, caches, acceptance statistic); repeated fixed-momentum transitions give selected-leaf frequencies tested by chi-square against the exact sub-sampling law; whitened invariance test from exact target draws (two-stage)",
+        text="For generated targets (Gaussian with generated precision, banana, user-defined with gradient), step sizes, depth limits and "
+             "both interfaces the momentum (np.random.randn) and slice (np.random.exponential) draws are scripted and every logd/gradient "
+             "evaluation recorded. Exact part: each evaluated point must lie on the reference leapfrog orbit from (x0, r0) in the order a "
+             "doubling tree visits it; doubling stops exactly at the reference no-U-turn / divergence / depth rule; the new state is an "
+             "in-slice leaf of a completed doubling; cached logd/gradient equal the target's at the new state; the acceptance statistic is "
+             "the mean Metropolis probability over the last doubling; the first dual-averaging step size follows from it. Selection law: "
+             "the same momentum and slice repeated M times, the frequency with which each leaf is returned per direction pattern must be "
+             "that of uniform progressive sub-sampling with top-level probability min(1, n'/n). Invariance: x ~ target exactly, k "
+             "transitions, whitened KS/mean/variance tests.",
+        note="Selection law and invariance are statistical (two-stage, joint false-alarm <= 1e-11 per test): 4000/20000 repeats per case; "
+             "detect selection-probability errors of a few percent. Depth <= 3 in the selection law, <= 6 in the exact part.",
+        design="3/C08"),
     "C09": dict(
         technique="Hypothesis property tests over run histories with harness-written spy subclasses of the block samplers, replayed against a reference model of the sweep; scripted-uniform MH decision test inside the sweep; successive-conditional statistical invariance test (two-stage)",
         text="For generated joint targets (2-4 blocks, hyper-parameters in likelihood and priors), generated sampler assignments (MH, CWMH, "
